@@ -489,6 +489,13 @@ func c10Snapshots(ev *vlib.Evidence, driver string, s store.Store, idx int, with
 		}
 		s.UpdateNodePeers(node, []string{string(peer)}, uint64(10+k))
 		s.SetNode(store.Node{ID: peer, LastSeen: time.Now(), BlockNumber: uint64(k)})
+		if linked && k%3 == 2 {
+			// another node with a trial balance joins the wallet: its credit is migrated into the account
+			extra := store.NodeID(fmt.Sprintf("%sx%d", pfx, k))
+			s.SetNode(store.Node{ID: extra, LastSeen: time.Now()})
+			s.AddNodeBalance(extra, mustBig(amounts[r.Intn(len(amounts))]))
+			s.AddAccountNode(acct, extra)
+		}
 	}
 	close(stop)
 	wg.Wait()
